@@ -46,6 +46,11 @@ META = {
 LISTFILE = "(listfile)"
 
 
+def decode_name(s):
+    """%XX escapes in generated names stand for the UTF-8 bytes of non-ASCII characters."""
+    return re.sub(rb"%([0-9A-Fa-f]{2})", lambda m: bytes([int(m.group(1), 16)]), s.encode("ascii")).decode("utf-8")
+
+
 def tok(b):
     return hashlib.sha1(bytes(b)).hexdigest()[:16]
 
@@ -150,7 +155,7 @@ def trace_dir1(arch_path, decoded):
             if iv["res"] == "ok":
                 content = b"".join(bytes(s["p"]) if s["m"] == -1 else (zlib.decompress(bytes(s["p"])) if s["m"] == 2 else bz2.decompress(bytes(s["p"])))
                                    for s in lf["sectors"])
-            lnames = sorted(x for x in content.decode("latin-1").replace("\r", "\n").split("\n") if x)
+            lnames = sorted(x for x in content.decode("utf-8", errors="replace").replace("\r", "\n").split("\n") if x)
             evs.append({"ev": "RefList", "case": case, "res": iv["res"], "names": lnames})
         evs.append({"ev": "Done", "case": case})
     return evs, nfiles
@@ -170,7 +175,7 @@ def gen_content(cc, n, rng):
         while len(b) < n:
             b += rng.choice(WORDS)
         return bytes(b[:n])
-    if cc == "mixed":                      # first half compressible, second half random
+    if cc in ("mixed", "edge"):            # first half compressible, second half random
         h = n // 2
         return gen_content("text", h, rng) + gen_content("random", n - h, rng)
     raise core.ToolError("content class " + cc)
@@ -197,7 +202,7 @@ def make_file(name, data, meth, enc, unit, ssize, crc=False):
         secs = [compress_unit(data, meth)]
     else:
         secs = [compress_unit(data[i:i + ssize], meth) for i in range(0, len(data), ssize)]
-    return {"name": name, "nb": list(name.encode("latin-1")), "locale": 0, "crc": bool(crc), "fsize": len(data), "enc": enc, "single": single,
+    return {"name": name, "nb": list(name.encode("utf-8")), "locale": 0, "crc": bool(crc), "fsize": len(data), "enc": enc, "single": single,
             "cflag": meth != "none", "sectors": secs}
 
 
@@ -215,6 +220,8 @@ def concretise_dir2(cases, seed):
             continue
         ssize = sector_size(c["shift"])
         files, meta = [], []
+        for f in c["files"]:
+            f["name"] = decode_name(f["name"])
         for fi, f in enumerate(c["files"]):
             rng = random.Random(f"c02r:{seed}:{c['id']}:{fi}")
             data = gen_content(f["cc"], length_of(f["lc"], ssize), rng)
@@ -231,12 +238,13 @@ def concretise_dir2(cases, seed):
             meta.insert(0, None)
             twin = {"name": tw["name"], "len": tw["fsize"], "tok": tok(bytes(tw["sectors"][0]["p"]))}
         names = [f["name"] for f in c["files"]] + [LISTFILE]
-        ldata = "".join(n + "\r\n" for n in names).encode("latin-1")
+        ldata = "".join(n + "\r\n" for n in names).encode("utf-8")
         files.append(make_file(LISTFILE, ldata, c["listfile"], "plain", "auto", ssize))
         meta.append({"name": LISTFILE, "len": len(ldata), "tok": tok(ldata), "meth": c["listfile"], "enc": "plain", "lc": "-", "unit": "auto"})
         n = len(files)
         hcount = pow2_at_least(2 * n + 2) if c["roomy"] else pow2_at_least(n + c["ndel"])
-        pool = [f"absent{k:02d}.dat" for k in range(24)] + ["Data\\File99.bin"]
+        # last: differs from a (possibly present) name only in the case of a NON-ASCII letter: another name for the format
+        pool = [f"absent{k:02d}.dat" for k in range(24)] + ["Data\\File99.bin", "Interface\\Glue\\caf\u00c9.txt"]
         out.append({"case": c["id"], "ver": c["ver"], "shift": c["shift"],
                     "cfg": {"ver": c["ver"], "shift": c["shift"], "hcount": hcount, "ndel": c["ndel"], "hibt": c["hibt"], "prefixlen": c["prefix"],
                             "userdata": bool(c.get("userdata")), "twin": bool(c.get("twin"))},
